@@ -7,6 +7,7 @@
  * xdec  <hexvalue>             decode() of filemap_xattr.c             -> "OK <hex>" | "ERR"
  * xfile <hex file content>     xattr_open_map_file on a temp file      -> "OK <path>{<key>=<val>,...};..." | "ERR"
  * Every line is copied into an exactly sized heap block (strlen + 1) so that ASan sees any over-read / over-write.
+ * sort: additionally every stage runs on an exactly sized block of its own input (sort_staged).
  */
 #include "config.h"
 #include "bin/gensquashfs/src/sort_by_file.c"
@@ -78,13 +79,49 @@ static void do_split(char *line)
 	free(sep);
 }
 
+/* the C string moved into a block of exactly its size (the old block is freed) */
+static char *exact(char *s)
+{
+	char *n = malloc(strlen(s) + 1);
+	strcpy(n, s);
+	free(s);
+	return n;
+}
+
+/* The three stages of a sort file line, each on a block that ends right behind the terminating NUL of the string
+ * it is given.  In the tool the stages share the line buffer, and decode_priority / decode_flags leave the old tail
+ * of the line behind the NUL of what they hand on: a stage that runs past that NUL reads (and rewrites) those
+ * left-overs, still inside the allocation, and ASan stays silent.  A stage is a function of the C string it gets;
+ * with the exact block a walk past the NUL crosses the redzone.  Result: 0 ok, -1 rejected (diagnostics on stderr). */
+static int sort_staged(const char *trimmed)
+{
+	char *buf = malloc(strlen(trimmed) + 1);
+	bool do_glob, path_glob;
+	sqfs_s64 prio;
+	int flags, ret = -1;
+
+	strcpy(buf, trimmed);
+	if (decode_priority("sort", 1, buf, &prio))
+		goto out;
+	buf = exact(buf);
+	if (decode_flags("sort", 1, &do_glob, &path_glob, &flags, buf))
+		goto out;
+	buf = exact(buf);
+	if (decode_filename("sort", 1, buf))
+		goto out;
+	ret = 0;
+out:
+	free(buf);
+	return ret;
+}
+
 static void do_sort(char *line)
 {
 	size_t len;
 	char *raw = unhex_str(line, &len), *buf;
 	bool do_glob, path_glob;
 	sqfs_s64 prio;
-	int flags;
+	int flags, staged;
 
 	/* what istream_get_line hands out: the C string, trimmed */
 	trim(raw);
@@ -93,16 +130,18 @@ static void do_sort(char *line)
 		free(raw);
 		return;
 	}
+	/* staged run first: if it dies, no line has been printed for this case yet */
+	staged = sort_staged(raw);
 	buf = malloc(strlen(raw) + 1);
 	strcpy(buf, raw);
 	free(raw);
 	if (decode_priority("sort", 1, buf, &prio) || decode_flags("sort", 1, &do_glob, &path_glob, &flags, buf) ||
 	    decode_filename("sort", 1, buf)) {
-		puts("ERR");
+		puts(staged == 0 ? "ERR STAGED-ACCEPTS" : "ERR");
 	} else {
 		printf("OK %" PRId64 " %d%d %d ", (int64_t)prio, do_glob ? 1 : 0, path_glob ? 1 : 0, flags);
 		puthexn((unsigned char *)buf, strlen(buf));
-		fputs("\n", stdout);
+		fputs(staged == 0 ? "\n" : " STAGED-REJECTS\n", stdout);
 	}
 	free(buf);
 }
